@@ -206,13 +206,16 @@ def _maxrow():
 
 
 def _build_cel(c, r):
-    r = str(r and int(r) or '')
-    return c != _maxcol() and c or '', r != _maxrow() and r or ''
+    return c or '', str(r and int(r) or '')
 
 
 def _build_ref(c1, r1, c2, r2, anchor=''):
-    (c1, r1), v2 = _build_cel(c1, r1), '{}{}'.format(*_build_cel(c2, r2))
-    v1 = '{}{}{}'.format(c1, r1, anchor)
+    (c1, r1), (c2, r2) = _build_cel(c1, r1), _build_cel(c2, r2)
+    if not c1 and c2 == _maxcol():  # Whole rows.
+        c2 = ''
+    if not r1 and r2 == _maxrow():  # Whole columns.
+        r2 = ''
+    v1, v2 = '{}{}{}'.format(c1, r1, anchor), '{}{}'.format(c2, r2)
     if v1 == v2 and c1 and r1:
         if v1:
             return v1
